@@ -24,6 +24,7 @@ import (
 func init() {
 	Scenarios["cutresp"] = cutrespScenario
 	Scenarios["lenfuzz"] = lenfuzzScenario
+	Scenarios["sizecut"] = sizecutScenario
 }
 
 type wireEnv struct {
@@ -339,6 +340,9 @@ func buildWireKinds() []wireKind {
 			if pv >= 3 && res.BaseOffset != leo {
 				return fmt.Sprintf("Client.Produce returned base offset %d, appended at %d", res.BaseOffset, leo), nil
 			}
+			if recs := p.Records(); p.LEO != leo+1 || len(recs) == 0 || string(recs[len(recs)-1].Value) != "produced|" {
+				return fmt.Sprintf("Client.Produce returned success but the record was not appended (log end %d -> %d)", leo, p.LEO), nil
+			}
 			return "", nil
 		}})
 	}
@@ -564,6 +568,7 @@ type wireOutcome struct {
 	reqIdx     int
 	// a concurrent call of another API on the same Conn (cutresp, conn path)
 	companion   bool
+	pooled      bool
 	compStarted bool
 	compDone    bool
 	compErr     error
@@ -575,10 +580,15 @@ type wireOutcome struct {
 // request pending on the same Conn.
 var wireCompanion bool
 
+// wirePooled asks the next runWireCase (Transport path) to complete another
+// exchange with the broker first, so that the exchange under test runs on a
+// connection re-used from the Transport's idle pool.
+var wirePooled bool
+
 func runWireCase(s *Sim, k *wireKind, damage func(r *Req, frame []byte, fields []rc.LenField, out *wireOutcome) []byte, measure bool) (*wireEnv, *wireOutcome, func()) {
 	e := wireCluster(s, k)
-	out := &wireOutcome{companion: wireCompanion}
-	wireCompanion = false
+	out := &wireOutcome{companion: wireCompanion, pooled: wirePooled}
+	wireCompanion, wirePooled = false, false
 	armed := false
 	seen := 0
 	var lastFields []rc.LenField
@@ -648,6 +658,21 @@ func runWireCase(s *Sim, k *wireKind, damage func(r *Req, frame []byte, fields [
 				return
 			}
 		}
+		if out.pooled && k.api != 18 && k.api != 3 {
+			// an exchange of another API with the (only) broker: its connection
+			// goes back to the idle pool and serves the call under test
+			var err error
+			if k.api == 2 {
+				_, err = e.client.OffsetFetch(ctx, &kafka.OffsetFetchRequest{GroupID: "wgrp-warm", Topics: map[string][]int{"wt": {0}}})
+			} else {
+				_, err = e.client.ListOffsets(ctx, &kafka.ListOffsetsRequest{Topics: map[string][]kafka.OffsetRequest{"wt": {kafka.FirstOffsetOf(0)}}})
+			}
+			if err != nil {
+				out.prepFailed = err
+				return
+			}
+			e.s.Count("pooled-connection")
+		}
 		var m0 runtime.MemStats
 		if measure {
 			runtime.ReadMemStats(&m0)
@@ -693,13 +718,15 @@ func runWireCase(s *Sim, k *wireKind, damage func(r *Req, frame []byte, fields [
 
 const cutMaxLen = 2048
 
-func CutCases() int { return len(WireKinds) * (cutMaxLen + 1) * 2 }
+func CutCases() int { return len(WireKinds) * (cutMaxLen + 1) * 4 }
 
 func cutrespScenario(s *Sim, params map[string]string) {
 	total := CutCases()
 	idx := int((s.T.Run*7919 + s.T.Seed*104729) % uint64(total))
 	x := idx
 	mode := x % 2
+	x /= 2
+	variant := x % 2
 	x /= 2
 	pos := x % (cutMaxLen + 1)
 	x /= cutMaxLen + 1
@@ -710,8 +737,11 @@ func cutrespScenario(s *Sim, params map[string]string) {
 	}
 	modeName := []string{"EOF", "RST"}[mode]
 	cutAt := -1
-	// every third case has a second goroutine waiting on the same connection
-	wireCompanion = k.path == "conn" && (idx/2)%3 == 1
+	// variant 1: (Conn) a second goroutine is waiting on the same connection;
+	// (Transport) the damaged exchange happens on a connection that has served
+	// an exchange before and was taken from the idle pool
+	wireCompanion = k.path == "conn" && variant == 1
+	wirePooled = k.path == "transport" && variant == 1
 	e, out, _ := runWireCase(s, k, func(r *Req, frame []byte, _ []rc.LenField, out *wireOutcome) []byte {
 		if len(frame) > cutMaxLen {
 			s.Fail("SIM", "corpus-too-long", "%s: response of %d bytes exceeds the enumerated range", k.name, len(frame))
@@ -741,7 +771,7 @@ func cutrespScenario(s *Sim, params map[string]string) {
 			// it again (Transport metadata/apiversions), never on the same one
 			if k.path == "conn" {
 				s.Fail("C17", "R3-truncated-accepted", "%s: the call returned success", desc)
-			} else if !retriedElsewhere(e, out) {
+			} else if !retriedElsewhere(e, out, k.api) {
 				s.Fail("C17", "R3-truncated-accepted", "%s: the call returned success without re-issuing the request", desc)
 			}
 		case cutAt < 0 && out.err != nil:
@@ -780,9 +810,9 @@ func cutrespScenario(s *Sim, params map[string]string) {
 	})
 }
 
-func retriedElsewhere(e *wireEnv, out *wireOutcome) bool {
+func retriedElsewhere(e *wireEnv, out *wireOutcome, api int16) bool {
 	for _, r := range e.cl.Journal {
-		if r.Idx > out.reqIdx && r.Conn != out.conn {
+		if r.Idx > out.reqIdx && r.Conn != out.conn && r.Hdr.APIKey == api {
 			return true
 		}
 	}
@@ -965,6 +995,90 @@ func lenfuzzScenario(s *Sim, params map[string]string) {
 			}
 			if out.took > 4*time.Second+100*time.Millisecond {
 				s.Fail("C20", "R1-hang", "%s: the call returned after %v", desc, out.took)
+			}
+		}
+		s.Count("ops")
+		e.n.Shutdown()
+	})
+}
+
+// ---------------------------------------------------------------------------
+// C20, second space: a frame whose size prefix announces far more than the
+// broker ever sends, delivered up to byte k; then the broker closes or stalls.
+// Whatever the decoder does with the fields it could not read, it must not
+// turn them into counts or lengths to allocate by.
+
+var sizecutSizes = []int64{1 << 20, 1 << 26, 1<<31 - 1}
+
+const sizecutMaxLen = 512
+
+func SizeCutCases() int { return len(WireKinds) * (sizecutMaxLen + 1) * len(sizecutSizes) * 2 }
+
+func sizecutScenario(s *Sim, params map[string]string) {
+	total := SizeCutCases()
+	idx := int((s.T.Run*7919 + s.T.Seed*104729) % uint64(total))
+	x := idx
+	silent := x%2 == 1
+	x /= 2
+	size := sizecutSizes[x%len(sizecutSizes)]
+	x /= len(sizecutSizes)
+	pos := x % (sizecutMaxLen + 1)
+	x /= sizecutMaxLen + 1
+	k := &WireKinds[x%len(WireKinds)]
+	if k.path != "transport" {
+		s.DoneWhen(func() bool { return true })
+		s.Count("skipped-conn-kind")
+		return
+	}
+	cutAt := -1
+	frameLen := 0
+	e, out, _ := runWireCase(s, k, func(r *Req, frame []byte, _ []rc.LenField, out *wireOutcome) []byte {
+		frameLen = len(frame)
+		// positions past the end of a long response fold back into it
+		p := pos
+		if p >= len(frame) {
+			if len(frame) <= sizecutMaxLen {
+				return frame // nothing to cut: delivered whole and truthful
+			}
+			p = len(frame) - 1
+		}
+		if p < 4 {
+			p = 4 // the size prefix itself is always delivered
+		}
+		cutAt = p
+		binary.BigEndian.PutUint32(frame, uint32(size))
+		r.Fault = "cut-exact"
+		s.Count("fault:size-lie-and-cut")
+		return frame
+	}, true)
+	e.cl.CutExact = func(r *Req) (int, bool) { return cutAt, false }
+	e.cl.CutSilent = silent
+	s.AtEnd(func() {
+		desc := fmt.Sprintf("case %d: %s, response of %d bytes announced as %d bytes, delivered up to byte %d, then the broker %s", idx, k.name, frameLen, size, cutAt,
+			map[bool]string{true: "stalls", false: "closes"}[silent])
+		switch {
+		case out.prepFailed != nil:
+			s.Fail("SIM", "wire-prep", "%s: preparation failed: %v", k.name, out.prepFailed)
+		case !out.fired:
+			s.Fail("SIM", "wire-not-fired", "%s: target exchange not seen", k.name)
+		}
+		if cutAt >= 0 {
+			s.Count("nontrivial")
+			limit := uint64(64*cutAt) + 1<<20
+			switch k.codec {
+			case 1, 2, 3:
+				limit += 8 << 20
+			case 4:
+				limit += 24 << 20
+			}
+			if out.alloc > limit {
+				s.Fail("C20", "R3-allocation", "%s: the call allocated %d bytes for %d bytes received (limit %d)", desc, out.alloc, cutAt, limit)
+			}
+			if out.took > 4*time.Second+100*time.Millisecond {
+				s.Fail("C20", "R1-hang", "%s: the call returned after %v", desc, out.took)
+			}
+			if out.err == nil && !retriedElsewhere(e, out, k.api) {
+				s.Fail("C20", "R2-neither-error-nor-message", "%s: the call returned success", desc)
 			}
 		}
 		s.Count("ops")
